@@ -12,7 +12,11 @@ import common, gen, configs
 
 LEVEL = "proof"
 THEOREMS = ["Mistune.needs_sound", "Mistune.no_match_without_needed", "Mistune.scan_irrelevant_rule",
-            "Mistune.plugins_have_triggers", "Mistune.m_sound"]
+            "Mistune.plugins_have_triggers", "Mistune.m_sound",
+            # lifted to the CONCRETE inline parser model: every source the inline parser is ever run on while parsing src (children of emphasis / links / plugin spans, the
+            # speculative calls of precedence_scan) contains only characters of src, so adding one inline rule that needs an absent character changes neither tokens nor errors
+            # (any env, any ch-free source; side conditions decidable on regenerated data; configurations without abbr); instance: core vs only-strikethrough on '~'-free text
+            "Mistune.Model.Inl.recAt_agree", "Mistune.Model.Inl.inlineParse_irrelevant_rule", "Mistune.Model.Inl.strikethrough_irrelevant"]
 
 # triggers of behaviour that is not a scanner rule (handler replacements / hooks); rule triggers are computed in Lean
 EXTRA_TRIGGERS = {"task_lists": "[", "spoiler": "!", "abbr": "*", "speedup": "", "fenced": "{", "rst": "."}
